@@ -386,6 +386,16 @@ impl<'a> Sim<'a> {
     ///
     /// Executes a simple event loop that calls [step](#method.step) each
     /// iteration, returning early if any host software errors.
+    /// Verification hook (read-only): `(udp binds, tcp listener binds, tcp streams)`
+    /// currently held in `addr`'s socket tables.
+    #[cfg(turmoil_verif)]
+    pub fn verif_host_counts(&self, addr: impl ToIpAddr) -> (usize, usize, usize) {
+        let mut world = self.world.borrow_mut();
+        let ip = world.lookup(addr);
+        let host = world.hosts.get(&ip).expect("missing host");
+        (host.udp.verif_bind_count(), host.tcp.verif_bind_count(), host.tcp.stream_count())
+    }
+
     pub fn run(&mut self) -> Result {
         // check if we have any clients
         if !self
@@ -436,6 +446,15 @@ impl<'a> Sim<'a> {
             .partition(|(_, rt)| rt.is_software_running());
         if self.config.random_node_order {
             running.shuffle(&mut self.world.borrow_mut().rng);
+        }
+        #[cfg(turmoil_verif)]
+        if self.config.random_node_order {
+            // the chooser may pick the permutation instead (selection sort by choice)
+            for i in 0..running.len().saturating_sub(1) {
+                if let Some(c) = crate::verif::choose("host-order", running.len() - i) {
+                    running.swap(i, i + c);
+                }
+            }
         }
 
         for (&addr, rt) in running {
